@@ -67,6 +67,25 @@ def _g_table(facts, n):
     R = resolver_of(fn)
     fls = for_loops(fn)
     tab = {}
+    Mname = hirq.show_pat(fn["params"][0]["pat"])
+    # idiom 2: g = (a..m).map(|i| f(i)).collect()
+    gfield = [f_["e"] for x in hirq.walk(fn["hir"]) if x["k"] == "Struct" for f_ in x["fields"] if f_["name"] == "g"]
+    if gfield:
+        e = nf.strip(gfield[0])
+        if e["k"] == "Path" and "local" in e["res"]:
+            d = R.lookup(e["res"]["local"])
+            e = nf.strip(d) if d is not None else e
+        if e["k"] == "MethodCall" and e["name"] == "collect":
+            mp = nf.strip(e["recv"])
+            if mp["k"] == "MethodCall" and mp["name"] == "map" and mp["args"] and mp["args"][0]["k"] == "Closure":
+                cl = mp["args"][0]
+                rng = nf.nf(mp["recv"], True, res=R)
+                mm = re.match(r"^std::ops::Range\{start:(\d+), end:(\w+)\}$", rng)
+                v = hirq.show_pat(cl["params"][0])
+                if mm and v != "_":
+                    for t_, i in enumerate(range(int(mm.group(1)), n)):
+                        tab[t_] = symeval.ev(cl["body"], {Mname: n, "m": n, v: i})
+                    return tab or None
     for f in fls:
         rng = nf.nf(f["iter"], True, res=R)
         m = re.match(r"^std::ops::Range\{start:(\d+), end:(\w+)\}$", rng)
